@@ -56,6 +56,9 @@ def run(chk: Check) -> None:
         if prop == "C05":
             chk.ob(rule, construct, ok, loc, msg, facts)
             n53 += 1
+        elif rule == "R05.3":
+            # section / module / IR scopes answer through the section index
+            chk.ob(rule, construct, ok, loc, msg, facts)
     chk.floor("R05.3", "index halves of the block-set primitives", n53, 2)
 
     bi = repo.cls("ByteInterval")
